@@ -73,6 +73,68 @@ theorem atan2R_div_pos (y x n : ℝ) (hn : 0 < n) : atan2R (y / n) (x / n) = ata
     rw [← not_lt, ← not_lt, h4]
   simp only [atan2R, e, h1, h2, h3, h4, h5]
 
+theorem sqrt_one_add_div_sq {x y : ℝ} (hx : x ≠ 0) : √(1 + (y / x) ^ 2) = √(x ^ 2 + y ^ 2) / |x| := by
+  have : 1 + (y / x) ^ 2 = (x ^ 2 + y ^ 2) / x ^ 2 := by field_simp
+  rw [this, Real.sqrt_div (by positivity), Real.sqrt_sq_eq_abs]
+
+/-- `atan2R y x` is THE angle of the point (x, y): for (x, y) ≠ (0, 0), with r = √(x² + y²),
+`r·cos θ = x`, `r·sin θ = y` and `-π < θ ≤ π`. -/
+theorem atan2R_spec (y x : ℝ) (h : x ≠ 0 ∨ y ≠ 0) :
+    √(x ^ 2 + y ^ 2) * Real.cos (atan2R y x) = x ∧ √(x ^ 2 + y ^ 2) * Real.sin (atan2R y x) = y ∧
+    -Real.pi < atan2R y x ∧ atan2R y x ≤ Real.pi := by
+  have hpi := Real.pi_pos
+  rcases lt_trichotomy x 0 with hx | hx | hx
+  · -- x < 0
+    have hx0 : x ≠ 0 := hx.ne
+    have hr : 0 < √(x ^ 2 + y ^ 2) := Real.sqrt_pos.mpr (by nlinarith [sq_nonneg y, mul_pos_of_neg_of_neg hx hx])
+    have hs := sqrt_one_add_div_sq (y := y) hx.ne
+    have hs0 : 0 < √(1 + (y / x) ^ 2) := Real.sqrt_pos.mpr (by positivity)
+    rw [abs_of_neg hx] at hs
+    have b1 := Real.neg_pi_div_two_lt_arctan (y / x)
+    have b2 := Real.arctan_lt_pi_div_two (y / x)
+    by_cases hy : 0 ≤ y
+    · have e : atan2R y x = Real.arctan (y / x) + Real.pi := by simp [atan2R, not_lt.mpr hx.le, hx, hy]
+      have hle : y / x ≤ 0 := div_nonpos_of_nonneg_of_nonpos hy hx.le
+      have b3 : Real.arctan (y / x) ≤ 0 := by
+        have := Real.arctan_strictMono.monotone hle
+        rwa [Real.arctan_zero] at this
+      rw [e, Real.cos_add_pi, Real.sin_add_pi, Real.cos_arctan, Real.sin_arctan, hs]
+      refine ⟨?_, ?_, by linarith, by linarith⟩
+      · field_simp
+      · field_simp
+    · have hy' : y < 0 := not_le.mp hy
+      have e : atan2R y x = Real.arctan (y / x) - Real.pi := by simp [atan2R, not_lt.mpr hx.le, hx, hy]
+      have hpos : 0 < y / x := div_pos_of_neg_of_neg hy' hx
+      have b3 : 0 < Real.arctan (y / x) := Real.arctan_pos.mpr hpos
+      rw [e, Real.cos_sub_pi, Real.sin_sub_pi, Real.cos_arctan, Real.sin_arctan, hs]
+      refine ⟨?_, ?_, by linarith, by linarith⟩
+      · field_simp
+      · field_simp
+  · -- x = 0
+    subst hx
+    have hy : y ≠ 0 := by rcases h with h | h; exact absurd rfl h; exact h
+    rcases lt_or_gt_of_ne hy with hy | hy
+    · have e : atan2R y 0 = -(Real.pi / 2) := by simp [atan2R, hy, not_lt.mpr hy.le]
+      rw [e]
+      simp only [ne_eq, zero_pow, zero_add, Real.cos_neg, Real.cos_pi_div_two, Real.sin_neg,
+        Real.sin_pi_div_two, OfNat.ofNat_ne_zero, not_false_eq_true, Real.sqrt_sq_eq_abs, abs_of_neg hy]
+      refine ⟨by ring, by ring, by linarith, by linarith⟩
+    · have e : atan2R y 0 = Real.pi / 2 := by simp [atan2R, hy]
+      rw [e]
+      simp only [ne_eq, OfNat.ofNat_ne_zero, not_false_eq_true, zero_pow, zero_add, Real.cos_pi_div_two, Real.sin_pi_div_two,
+        Real.sqrt_sq_eq_abs, abs_of_pos hy]
+      refine ⟨by ring, by ring, by linarith, by linarith⟩
+  · -- x > 0
+    have hs := sqrt_one_add_div_sq (y := y) hx.ne'
+    rw [abs_of_pos hx] at hs
+    have hr : 0 < √(x ^ 2 + y ^ 2) := Real.sqrt_pos.mpr (by positivity)
+    have b1 := Real.neg_pi_div_two_lt_arctan (y / x)
+    have b2 := Real.arctan_lt_pi_div_two (y / x)
+    rw [atan2R_of_pos _ hx, Real.cos_arctan, Real.sin_arctan, hs]
+    refine ⟨?_, ?_, by linarith, by linarith⟩
+    · field_simp
+    · field_simp
+
 /-! ## partial operations at ℝ -/
 
 theorem divE_real_ok {a b : ℝ} (hb : b ≠ 0) : divE a b = .ok (a / b) := by
